@@ -15,6 +15,10 @@ use serde::{Deserialize, Serialize};
 pub struct ChangeSpec {
     pub batch: BatchSpec,
     pub overlay: bool,
+    /// an overlay prepared on top of the previous changeset (if that is an overlay too) instead of on the base: it
+    /// may be committed exactly when its parent is the most recently accepted commit
+    #[serde(default)]
+    pub child: bool,
 }
 
 #[derive(Clone, Copy, Debug, Serialize, Deserialize, PartialEq, Eq)]
@@ -57,6 +61,10 @@ struct Change {
     batch: Vec<(Key, MOp)>,
     base_root: [u8; 32],
     has_delta_writes: bool,
+    /// index of the overlay this one was prepared on top of
+    parent: Option<usize>,
+    /// the state this changeset produces
+    view: Map,
 }
 
 fn v(step: usize, m: impl Into<String>) -> Violation {
@@ -109,13 +117,37 @@ fn run_case<H: HK>(case: &C12Case, ctx: &Ctx) -> Result<CaseInfo, Violation> {
     let mut changes: Vec<Change> = Vec::new();
     let mut budget = gen::Budget { left: 1 << 20 };
     for (j, cs) in case.changes.iter().enumerate() {
-        let batch = gen::resolve_batch(base.salt ^ (j as u64 + 1), &cs.batch, &r.model.cur, 5000 + j as u32, &mut budget);
-        let sess = r.db().begin(&[], false).map_err(|f| v(n0, f.sig()))?;
-        let fin = r
-            .db()
-            .finish(sess, &r.model.cur, &batch, &CommitOpts::default())
-            .map_err(|f| v(n0, f.sig()))?;
+        let parent = if cs.overlay && cs.child && j > 0 && matches!(changes[j - 1].prepared, Some(Prepared::Ov(_))) { Some(j - 1) } else { None };
+        let mut chain: Vec<usize> = Vec::new();
+        let mut cur = parent;
+        while let Some(p) = cur {
+            chain.push(p);
+            cur = changes[p].parent;
+        }
+        let base_view: Map = match parent {
+            Some(p) => changes[p].view.clone(),
+            None => r.model.cur.clone(),
+        };
+        let batch = gen::resolve_batch(base.salt ^ (j as u64 + 1), &cs.batch, &base_view, 5000 + j as u32, &mut budget);
+        let fin = {
+            let refs: Vec<&Overlay> = chain
+                .iter()
+                .map(|i| match changes[*i].prepared.as_ref() {
+                    Some(Prepared::Ov(o)) => o,
+                    _ => unreachable!(),
+                })
+                .collect();
+            let sess = r.db().begin(&refs, false).map_err(|f| v(n0, format!("session on a complete live overlay chain refused: {}", f.sig())))?;
+            r.db().finish(sess, &base_view, &batch, &CommitOpts::default()).map_err(|f| v(n0, f.sig()))?
+        };
         let base_root = fin.prev_root;
+        if base_root != root_of(H::KIND, &base_view) {
+            return Err(v(n0, format!("a session on a chain of {} overlays reports a previous root that is not the root of its parent", chain.len())));
+        }
+        let view = crate::model::apply(H::KIND, &base_view, &batch);
+        if parent.is_some() {
+            info.bump("child_overlays_prepared");
+        }
         let has_delta_writes = batch.iter().any(|(_, op)| op.is_write());
         let prepared = if cs.overlay {
             Prepared::Ov(overlay_of(fin).map_err(|f| v(n0, f.sig()))?)
@@ -127,11 +159,16 @@ fn run_case<H: HK>(case: &C12Case, ctx: &Ctx) -> Result<CaseInfo, Violation> {
             batch,
             base_root,
             has_delta_writes,
+            parent,
+            view,
         });
     }
     // attempts
     let mut intervening = false; // an accepted commit / rollback happened since the changesets were prepared
     let mut gray_accepted = false;
+    // the changeset whose acceptance was the most recent state-changing event (None after a rollback / a concurrent pair)
+    let mut last_accept: Option<usize> = None;
+    let mut refused_since_accept = false;
     let tag = |gray: bool, v: Violation| -> Violation {
         if gray {
             Violation {
@@ -155,6 +192,7 @@ fn run_case<H: HK>(case: &C12Case, ctx: &Ctx) -> Result<CaseInfo, Violation> {
                 r.db().rollback(n).map_err(|f| v(step, format!("rollback({n}) within the retained depth failed: {}", f.sig())))?;
                 r.model.rollback_apply(n);
                 intervening = true;
+                last_accept = None;
                 info.bump("rollbacks_between");
                 same_state(r.db(), &r.model.cur, root_of(H::KIND, &r.model.cur), r.model.seqn, step, "after rollback").map_err(|e| tag(gray_accepted, e))?;
             }
@@ -168,6 +206,11 @@ fn run_case<H: HK>(case: &C12Case, ctx: &Ctx) -> Result<CaseInfo, Violation> {
                     ib = (ia + 1) % changes.len();
                 }
                 if changes[ia].prepared.is_none() || changes[ib].prepared.is_none() {
+                    continue;
+                }
+                if changes[ia].parent.is_some() || changes[ib].parent.is_some() {
+                    // the two-order model below judges by base root only
+                    info.bump("concurrent_pairs_skipped_child_overlay");
                     continue;
                 }
                 let valid = [changes[ia].base_root == cur_root, changes[ib].base_root == cur_root];
@@ -242,6 +285,7 @@ fn run_case<H: HK>(case: &C12Case, ctx: &Ctx) -> Result<CaseInfo, Violation> {
                     if ok {
                         r.model.commit(&changes[ci].batch);
                         intervening = true;
+                        last_accept = None;
                         info.bump("accepted");
                     } else {
                         info.bump("rejected");
@@ -263,8 +307,21 @@ fn run_case<H: HK>(case: &C12Case, ctx: &Ctx) -> Result<CaseInfo, Violation> {
                 let Some(prep) = changes[ci].prepared.take() else {
                     continue;
                 };
+                // a changeset prepared on the store: valid iff its base root is the current root (gray if that is so
+                // again only after something was committed and undone). An overlay prepared on a parent overlay:
+                // certainly valid iff the acceptance of that parent was the most recent state-changing event - refused
+                // and deferred attempts in between do not count -, certainly invalid iff the roots differ
                 let valid = changes[ci].base_root == cur_root;
-                let gray = valid && intervening;
+                let gray = match changes[ci].parent {
+                    None => valid && intervening,
+                    Some(p) => valid && last_accept != Some(p),
+                };
+                if changes[ci].parent.is_some() {
+                    info.bump("child_overlay_attempts");
+                    if valid && !gray && refused_since_accept {
+                        info.bump("child_overlay_attempts_after_parent_then_refused_attempt");
+                    }
+                }
                 if gray && !case.allow_gray {
                     // only when a replay file asks for it (allow_gray = false)
                     changes[ci].prepared = Some(prep);
@@ -290,13 +347,18 @@ fn run_case<H: HK>(case: &C12Case, ctx: &Ctx) -> Result<CaseInfo, Violation> {
                         Flavour::NonBlocking => "non-blocking",
                         Flavour::NonBlockingLive => "non-blocking (another session alive)",
                     },
-                    if case.changes[ci].overlay { "overlay" } else { "session changeset" },
+                    match (case.changes[ci].overlay, changes[ci].parent) {
+                        (_, Some(p)) => format!("overlay (child of overlay #{p}{})", if last_accept == Some(p) { ", the most recently accepted commit" } else { "" }),
+                        (true, None) => "overlay".to_string(),
+                        (false, _) => "session changeset".to_string(),
+                    },
                     if valid { "current" } else { "stale" }
                 );
                 match (outcome, flavour) {
                     (Err(f), _) if f.kind == FailKind::Panic => return Err(v(step, format!("{what} panicked: {}", f.msg))),
                     (Ok(Some(back)), Flavour::NonBlockingLive) => {
                         changes[ci].prepared = Some(back);
+                        refused_since_accept = true;
                         info.bump("deferred");
                         if changes[ci].has_delta_writes {
                             info.bump("deferred_with_delta");
@@ -304,7 +366,9 @@ fn run_case<H: HK>(case: &C12Case, ctx: &Ctx) -> Result<CaseInfo, Violation> {
                         same_state(r.db(), &pre_map, cur_root, pre_seqn, step, &format!("after the deferred {what}"))?;
                     }
                     (Ok(None), Flavour::NonBlockingLive) => return Err(v(step, format!("{what} committed although another session was alive"))),
-                    (Err(f), Flavour::NonBlockingLive) => {
+                    (Err(f), Flavour::NonBlockingLive) if !(changes[ci].parent.is_some() && (!valid || gray)) => {
+                        // (an overlay whose parent is not the last accepted commit is refused before the lock is tried:
+                        // a rejection like any other, handled below)
                         return Err(v(step, format!("{what} returned an error instead of handing the changeset back: {}", f.sig())))
                     }
                     (Ok(Some(_)), _) => return Err(v(step, format!("{what} handed the changeset back although no session was alive"))),
@@ -314,6 +378,8 @@ fn run_case<H: HK>(case: &C12Case, ctx: &Ctx) -> Result<CaseInfo, Violation> {
                         }
                         r.model.commit(&changes[ci].batch);
                         intervening = true;
+                        last_accept = Some(ci);
+                        refused_since_accept = false;
                         if gray {
                             gray_accepted = true;
                         }
@@ -325,6 +391,7 @@ fn run_case<H: HK>(case: &C12Case, ctx: &Ctx) -> Result<CaseInfo, Violation> {
                             return Err(v(step, format!("{what} was rejected although its base is the current state: {}", f.sig())));
                         }
                         info.bump("rejected");
+                        refused_since_accept = true;
                         if changes[ci].has_delta_writes {
                             info.bump("rejected_with_delta");
                         }
@@ -410,8 +477,8 @@ impl Check for C12 {
     const ID: &'static str = "C12";
     const LEVEL: &'static str = "exploration";
     fn rule() -> String {
-        "a base state (proptest history of 1..4 commits, rollback enabled, small log limits and rollback segments) and 2..4 competing changesets all prepared on it (finished sessions and \
-         overlays, each carrying a reverse delta), then a generated sequence of acts: commit attempts in any order and flavour (blocking; non-blocking; non-blocking while the harness keeps \
+        "a base state (proptest history of 1..4 commits, rollback enabled, small log limits and rollback segments) and 2..4 competing changesets prepared on it (finished sessions and \
+         overlays, each carrying a reverse delta; 40% of the overlays are CHILD overlays prepared on top of the previous overlay changeset - certainly valid exactly when the acceptance of their parent was the most recent state-changing event, refused and deferred attempts in between not counting; one case in five forces parent accepted -> attempts with the stale rest -> child), then a generated sequence of acts: commit attempts in any order and flavour (blocking; non-blocking; non-blocking while the harness keeps \
          another session alive, later retried), PAIRS of blocking commits started on two threads while a live session makes both wait (at most one may win, the other must be refused), and rollback(n) in between (which can make a stale changeset current again). Oracle: an attempt succeeds iff its base root equals the current \
          root, otherwise Err; with a live session the changeset is handed back; after EVERY rejected / deferred attempt root, seqn, poison flag and all values are as before; finally (on the \
          live handle or after a reopen) rollback(1) is applied repeatedly and must restore exactly the model's snapshots - i.e. the rollback history contains exactly the accepted commits - and \
@@ -435,7 +502,10 @@ impl Check for C12 {
                 witness_weight: 0.0,
                 ext4_weight: 2,
             }),
-            prop::collection::vec((batch(), any::<bool>()).prop_map(|(batch, overlay)| ChangeSpec { batch, overlay }), 2..=4),
+            prop::collection::vec(
+                (batch(), any::<bool>(), prop::bool::weighted(0.4)).prop_map(|(batch, overlay, child)| ChangeSpec { batch, overlay, child: overlay && child }),
+                2..=4,
+            ),
             prop::collection::vec(
                 prop_oneof![
                     8 => (0u8..4, prop_oneof![3 => Just(Flavour::Blocking), 3 => Just(Flavour::NonBlocking), 2 => Just(Flavour::NonBlockingLive)])
@@ -446,8 +516,35 @@ impl Check for C12 {
                 2..=9,
             ),
             any::<bool>(),
+            any::<u8>(),
         )
-            .prop_map(|(base, changes, acts, reopen_before_probe)| C12Case { base, changes, acts, reopen_before_probe, allow_gray: true })
+            .prop_map(|(base, mut changes, mut acts, reopen_before_probe, shape)| {
+                // one case in five: an overlay chain #0 <- #1, the parent committed, then attempts with the remaining
+                // (by then stale) changesets, then the child - which must still be accepted
+                if shape % 5 == 0 && changes.len() >= 3 {
+                    changes[0].overlay = true;
+                    changes[0].child = false;
+                    changes[1].overlay = true;
+                    changes[1].child = true;
+                    if shape % 2 == 0 {
+                        changes[2].overlay = false;
+                        changes[2].child = false;
+                    }
+                    let fl = |b: u8| match b % 3 {
+                        0 => Flavour::Blocking,
+                        1 => Flavour::NonBlocking,
+                        _ => Flavour::NonBlockingLive,
+                    };
+                    let mut forced = vec![Act::Attempt { cs: 0, flavour: if shape & 16 == 0 { Flavour::Blocking } else { Flavour::NonBlocking } }];
+                    for (i, _) in changes.iter().enumerate().skip(2) {
+                        forced.push(Act::Attempt { cs: i as u8, flavour: fl(shape / 32 + i as u8) });
+                    }
+                    forced.push(Act::Attempt { cs: 1, flavour: fl(shape / 8) });
+                    forced.extend(acts.drain(..).take(4));
+                    acts = forced;
+                }
+                C12Case { base, changes, acts, reopen_before_probe, allow_gray: true }
+            })
             .boxed()
     }
     fn run(case: &C12Case, ctx: &Ctx) -> Result<CaseInfo, Violation> {
@@ -460,7 +557,7 @@ impl Check for C12 {
         format!(
             "base[{}] changes={:?} acts={:?} reopen_before_probe={}",
             case.base.brief(),
-            case.changes.iter().map(|c| if c.overlay { "ov" } else { "fs" }).collect::<Vec<_>>(),
+            case.changes.iter().map(|c| if c.child { "ov-child" } else if c.overlay { "ov" } else { "fs" }).collect::<Vec<_>>(),
             case.acts,
             case.reopen_before_probe
         )
